@@ -4,6 +4,12 @@
 (* Machine: a scanner over the format string, one step per character or per placeholder; argument  *)
 (* texts are opaque and appended verbatim (never rescanned).  Meaning: the pieces of the format     *)
 (* between `{}` occurrences spliced with the arguments.  Arity mismatch in either direction raises. *)
+(*                                                                                                  *)
+(* Object level (MaxOps > 1): one thread performs a history of operations.  A formatter object keeps *)
+(* its arguments: it can be rendered again (same text), given more arguments and rendered again (the *)
+(* text / the arity error of all arguments given so far); a raise builds its message on a stream of   *)
+(* its own, so nothing an earlier message did to its stream (an argument type that switches the       *)
+(* stream to hexadecimal, say) is seen by a later one - within one message it is, as with any ostream.*)
 EXTENDS Naturals, Integers, Sequences, FiniteSets, Bytes, TLC, Json
 
 CONSTANTS Fmts,      \* set of format strings (byte strings)
@@ -11,7 +17,8 @@ CONSTANTS Fmts,      \* set of format strings (byte strings)
           MaxArgs,   \* bound on the number of supplied arguments
           ItemVals,  \* set of raise items  [t |-> "s", v |-> bytes] or [t |-> "i", v |-> Int]
           MaxItems,
-          Ops        \* subset of {"format", "raise"}
+          Ops,       \* subset of {"format", "raise"}
+          MaxOps     \* operations per history (1: single calls)
 
 PH == <<123, 125>>    \* "{}"
 
@@ -37,66 +44,102 @@ FormatD(f, args) ==
 RECURSIVE NatText(_)
 NatText(n) == IF n < 10 THEN <<48 + n>> ELSE NatText(n \div 10) \o <<48 + (n % 10)>>
 IntText(n) == IF n < 0 THEN <<45>> \o NatText(0 - n) ELSE NatText(n)
-ItemText(it) == IF it.t = "s" THEN it.v ELSE IntText(it.v)
-RECURSIVE MessageD(_)
-MessageD(items) == IF items = <<>> THEN <<>> ELSE ItemText(Head(items)) \o MessageD(Tail(items))
+HexDigit(d) == IF d < 10 THEN 48 + d ELSE 87 + d
+RECURSIVE HexText(_)
+HexText(n) == IF n < 16 THEN <<HexDigit(n)>> ELSE HexText(n \div 16) \o <<HexDigit(n % 16)>>
+(* items: "s" text, "i" integer, "h" a user type whose operator<< prints its (natural) number in hexadecimal and    *)
+(* leaves the stream in that mode: the integers streamed after it *into the same message* come out hexadecimal too  *)
+ItemText(it, hex) == CASE it.t = "s" -> it.v
+                       [] it.t = "h" -> HexText(it.v)
+                       [] OTHER -> IF hex THEN HexText(it.v) ELSE IntText(it.v)
+RECURSIVE MessageM(_, _)
+MessageM(items, hex) == IF items = <<>> THEN <<>>
+                        ELSE ItemText(Head(items), hex) \o MessageM(Tail(items), hex \/ Head(items).t = "h")
+MessageD(items) == MessageM(items, FALSE)       \* every message starts on a fresh stream
+(* hexadecimal text of negative numbers is two's complement: kept out of the model *)
+WellFormedItems(items) == \A i, j \in 1..Len(items) : i < j /\ items[i].t = "h" /\ items[j].t = "i" => items[j].v >= 0
 
 --------------------------------------------------------------------------------------------------
 (* machine *)
 
-VARIABLES op, fmt, args, pos, argIdx, out, phase, outcome
-vars == <<op, fmt, args, pos, argIdx, out, phase, outcome>>
+VARIABLES op, fmt, args, pos, argIdx, out, phase, outcome,
+          hex,      \* raise: the message stream has been switched to hexadecimal by an earlier item of this message
+          cont,     \* how this operation relates to the previous one: "new" | "again" | "mod" | "args"
+          hist      \* finished operations of this history
+vars == <<op, fmt, args, pos, argIdx, out, phase, outcome, hex, cont, hist>>
+
+Choose(o, f, a) ==      \* a new operation: a fresh formatter with all its arguments, or a raise
+  \/ /\ "format" \in Ops /\ o = "format" /\ f \in Fmts
+     /\ \E n \in 0..MaxArgs : n <= NumPlaceholders(f) + 1 /\ a \in [1..n -> ArgVals]
+  \/ /\ "raise" \in Ops /\ o = "raise" /\ f = <<>>
+     /\ \E n \in 1..MaxItems : a \in [1..n -> ItemVals] /\ WellFormedItems(a)
 
 Init ==
-  /\ pos = 1 /\ argIdx = 1 /\ out = <<>> /\ phase = "run" /\ outcome = "ok"
-  /\ \/ /\ "format" \in Ops /\ op = "format" /\ fmt \in Fmts
-        /\ \E n \in 0..MaxArgs : n <= NumPlaceholders(fmt) + 1 /\ args \in [1..n -> ArgVals]
-     \/ /\ "raise" \in Ops /\ op = "raise" /\ fmt = <<>>
-        /\ \E n \in 1..MaxItems : args \in [1..n -> ItemVals]
+  /\ pos = 1 /\ argIdx = 1 /\ out = <<>> /\ phase = "run" /\ outcome = "ok" /\ hex = FALSE /\ cont = "new" /\ hist = <<>>
+  /\ Choose(op, fmt, args)
 
 AtPlaceholder == pos + 1 <= Len(fmt) /\ fmt[pos] = 123 /\ fmt[pos + 1] = 125
 
 Substitute ==
   /\ op = "format" /\ phase = "run" /\ AtPlaceholder /\ argIdx <= Len(args)
   /\ out' = out \o args[argIdx] /\ argIdx' = argIdx + 1 /\ pos' = pos + 2
-  /\ UNCHANGED <<op, fmt, args, phase, outcome>>
+  /\ UNCHANGED <<op, fmt, args, phase, outcome, hex, cont, hist>>
 
 TooFew ==
   /\ op = "format" /\ phase = "run" /\ AtPlaceholder /\ argIdx > Len(args)
   /\ phase' = "done" /\ outcome' = "raise" /\ out' = <<>>
-  /\ UNCHANGED <<op, fmt, args, pos, argIdx>>
+  /\ UNCHANGED <<op, fmt, args, pos, argIdx, hex, cont, hist>>
 
 CopyChar ==
   /\ op = "format" /\ phase = "run" /\ pos <= Len(fmt) /\ ~AtPlaceholder
   /\ out' = Append(out, fmt[pos]) /\ pos' = pos + 1
-  /\ UNCHANGED <<op, fmt, args, argIdx, phase, outcome>>
+  /\ UNCHANGED <<op, fmt, args, argIdx, phase, outcome, hex, cont, hist>>
 
 EndOk ==
   /\ op = "format" /\ phase = "run" /\ pos > Len(fmt) /\ argIdx > Len(args)
   /\ phase' = "done"
-  /\ UNCHANGED <<op, fmt, args, pos, argIdx, out, outcome>>
+  /\ UNCHANGED <<op, fmt, args, pos, argIdx, out, outcome, hex, cont, hist>>
 
 TooMany ==
   /\ op = "format" /\ phase = "run" /\ pos > Len(fmt) /\ argIdx <= Len(args)
   /\ phase' = "done" /\ outcome' = "raise" /\ out' = <<>>
-  /\ UNCHANGED <<op, fmt, args, pos, argIdx>>
+  /\ UNCHANGED <<op, fmt, args, pos, argIdx, hex, cont, hist>>
 
 RaiseItem ==      \* the message is built by streaming one item after the other
   /\ op = "raise" /\ phase = "run" /\ argIdx <= Len(args)
-  /\ out' = out \o ItemText(args[argIdx]) /\ argIdx' = argIdx + 1
-  /\ UNCHANGED <<op, fmt, args, pos, phase, outcome>>
+  /\ out' = out \o ItemText(args[argIdx], hex) /\ argIdx' = argIdx + 1
+  /\ hex' = (hex \/ args[argIdx].t = "h")
+  /\ UNCHANGED <<op, fmt, args, pos, phase, outcome, cont, hist>>
 
 RaiseThrow ==
   /\ op = "raise" /\ phase = "run" /\ argIdx > Len(args)
   /\ phase' = "done" /\ outcome' = "raise"
-  /\ UNCHANGED <<op, fmt, args, pos, argIdx, out>>
+  /\ UNCHANGED <<op, fmt, args, pos, argIdx, out, hex, cont, hist>>
 
-Next == Substitute \/ TooFew \/ CopyChar \/ EndOk \/ TooMany \/ RaiseItem \/ RaiseThrow
-Spec == Init /\ [][Next]_vars /\ WF_vars(Next)
+(* object level: what may follow a finished operation *)
+Rec == [op |-> op, fmt |-> fmt, args |-> args, outcome |-> outcome, out |-> out, cont |-> cont]
+Restart == pos' = 1 /\ argIdx' = 1 /\ out' = <<>> /\ phase' = "run" /\ outcome' = "ok" /\ hex' = FALSE
+MayContinue == phase = "done" /\ Len(hist) + 1 < MaxOps
+
+NextOp ==            \* an unrelated operation: a fresh formatter object, or a raise (fresh message stream)
+  /\ MayContinue /\ hist' = Append(hist, Rec) /\ Restart /\ cont' = "new"
+  /\ Choose(op', fmt', args')
+RenderAgain ==       \* the same formatter object rendered once more: rendering consumes nothing
+  /\ MayContinue /\ op = "format" /\ hist' = Append(hist, Rec) /\ Restart /\ cont' = "again"
+  /\ UNCHANGED <<op, fmt, args>>
+SupplyMore ==        \* one more argument for the same formatter object (operator % or args(...)), rendered again
+  /\ MayContinue /\ op = "format" /\ Len(args) <= NumPlaceholders(fmt) /\ Len(args) < MaxArgs
+  /\ hist' = Append(hist, Rec) /\ Restart /\ cont' \in {"mod", "args"}
+  /\ \E v \in ArgVals : args' = Append(args, v)
+  /\ UNCHANGED <<op, fmt>>
+
+Step == Substitute \/ TooFew \/ CopyChar \/ EndOk \/ TooMany \/ RaiseItem \/ RaiseThrow
+Next == Step \/ NextOp \/ RenderAgain \/ SupplyMore
+Spec == Init /\ [][Next]_vars /\ WF_vars(Step)
 
 --------------------------------------------------------------------------------------------------
 Done == phase = "done"
-Terminates == <>Done
+Terminates == []<>Done
 
 SumLen(ss) == Len(Concat(ss))
 
@@ -113,6 +156,14 @@ FormatLaws ==
       /\ outcome = "ok" /\ k = 0 => out = fmt                                \* no placeholder: verbatim
       /\ outcome = "ok" /\ (\A i \in 1..Len(args) : args[i] = PH) => out = fmt  \* "{}" as argument: identity, never rescanned
 
-CaseRec == [op |-> op, fmt |-> fmt, args |-> args, outcome |-> outcome, out |-> out]
-Emit == Done => PrintT("CASE " \o ToJson(CaseRec))
+(* every operation of a history means what it means alone: earlier renders, earlier messages leave nothing behind *)
+EveryOpIsMeaning ==
+  \A k \in 1..Len(hist) :
+    IF hist[k].op = "format" THEN [outcome |-> hist[k].outcome, out |-> hist[k].out] = FormatD(hist[k].fmt, hist[k].args)
+    ELSE hist[k].outcome = "raise" /\ hist[k].out = MessageD(hist[k].args)
+AgainIsSame ==
+  \A k \in 2..Len(hist) : hist[k].cont = "again" => hist[k].out = hist[k - 1].out /\ hist[k].outcome = hist[k - 1].outcome
+
+CaseRec == [ops |-> Append(hist, Rec)]
+Emit == (Done /\ Len(hist) + 1 = MaxOps) => PrintT("CASE " \o ToJson(CaseRec))
 =============================================================================
